@@ -31,6 +31,11 @@ def parse_obs(line):
     return {"F": frames, "D": dones, "E": events, "T": tbl, "L": last, "rest": m.group(6)}
 
 
+def parse_census(o):
+    m = re.search(r" G=(\d+),(\d+),(\d+)", o.get("rest") or "")
+    return tuple(int(x) for x in m.groups()) if m else None
+
+
 def kvs(op):
     return dict(a.split("=", 1) for a in op.split() if "=" in a)
 
@@ -147,6 +152,19 @@ class SWorldMonitor:
         for key, msg in self.wire.feed(o["F"], self.handler_returned, self.cancelled):
             prop = "C06" if key == "chunk-too-big" else ("C01" if key == "data-corrupt" else "C13")
             v.append((prop, key, msg))
+        # ---- C14 / C04: once serve has returned every stream context has ended, so no watcher may remain,
+        # and an RPC whose handler has returned has left the table
+        g0 = parse_census(o)
+        if (self.returned or tunnel_err) and g0 is not None:
+            if g0[1] != 0:
+                v.append(("C14", "watcher-after-tunnel-end", f"{g0[1]} stream-context watcher goroutine(s) still alive after serve returned "
+                                                             f"({(tunnel_err or ['earlier'])[0]}): stream contexts were not cancelled"))
+            if g0[2] != 0:
+                v.append(("C14", "send-goroutine-stuck", f"{g0[2]} one-Send goroutine(s) alive after serve returned"))
+            if o["T"] is not None:
+                for t in o["T"]:
+                    if t in self.handler_returned:
+                        v.append(("C14", "stale-table-entry", f"stream {t} still in the server table after its handler returned (tunnel ended)"))
         if self.returned:
             return v
         if "B=1" in o["rest"]:
@@ -262,6 +280,14 @@ class SWorldMonitor:
             for t in self.table:
                 if t not in o["T"]:
                     v.append(("C14", "missing-table-entry", f"live stream {t} missing from the server table"))
+        # ---- goroutine census (C14): G=handlers,watchers,one-send goroutines ----
+        g = parse_census(o)
+        if g is not None:
+            h, w, x = g
+            if x != 0:
+                v.append(("C14", "send-goroutine-stuck", f"{x} goroutine(s) started for a single carrier Send still alive at quiescence"))
+            if o["T"] is not None and w > len(o["T"]):
+                v.append(("C14", "watcher-without-rpc", f"{w} stream-context watcher goroutine(s) alive but only {len(o['T'])} RPC(s) in the server table"))
         return v
 
 
@@ -415,6 +441,9 @@ class CWorldMonitor:
                                    "deadline": "timeout" in k, "sent_bytes": 0, "credit": 0, "flushed": False}
                 if "cancelled" not in k:
                     self.table.add(dsid)
+                if "early" in k:
+                    # the peer answered the new_stream frame at once: headers a=1 and one complete message
+                    self.rpcs[dsid].update(hdr_seen=True, hdr="a=1", complete=1)
             if dop == "new" and res != "ok" and not self.finished:
                 v.append(("C04", "new-fails-on-open-channel", f"NewStream failed on an open channel: {res}"))
             if dop == "new" and res == "ok" and self.finished:
@@ -514,6 +543,14 @@ class CWorldMonitor:
             for t in o["T"]:
                 if t not in self.table and t in self.rpcs and self.rpcs[t].get("by_close"):
                     v.append(("C14", "stale-table-entry", f"stream {t} still in the client table after its close frame"))
+        # ---- goroutine census (C14): G=receive loops,watchers,one-send goroutines ----
+        g = parse_census(o)
+        if g is not None and not self.blocked:
+            l, w, x = g
+            if x != 0:
+                v.append(("C14", "send-goroutine-stuck", f"{x} goroutine(s) started for a single carrier Send still alive at quiescence"))
+            if o["T"] is not None and w > len(o["T"]):
+                v.append(("C14", "watcher-without-rpc", f"{w} stream-context watcher goroutine(s) alive but only {len(o['T'])} RPC(s) in the client table"))
         return v
 
 
